@@ -13,7 +13,10 @@ MCHandlerOf == [c \in MCCTypes |-> CASE c \in {"json", "json_charset", "json_par
                                      [] OTHER -> "none"]
 MCBodyKinds == {"empty", "valid", "truncated", "badenc", "hookfail", "blank", "padded"}
 (* PEP 3333 needs CONTENT_LENGTH to bound wsgi.input (wsgi.input_terminated is out of scope) *)
-MCFramings == [s \in {"wsgi", "asgi"} |-> IF s = "wsgi" THEN {"length"} ELSE {"length", "chunked"}]
+(* "absent" / "blank": no Content-Length header at all / a blank one; such a request has no body (MediaCache!Init) *)
+MCFramings == [s \in {"wsgi", "asgi"} |-> IF s = "wsgi" THEN {"length", "absent", "blank"} ELSE {"length", "chunked", "absent", "blank"}]
+MCContexts == {"plain", "except", "exceptself", "mw", "errh"}
+PlainOnly  == {"plain"}
 
 Keep == UNCHANGED h
 Log  == h' = Append(h, last')
@@ -25,8 +28,33 @@ AGetMedia        == Len(h) < Depth /\ GetMedia /\ Log
 AGetMediaDefault == Len(h) < Depth /\ GetMediaDefault /\ Log
 AMediaProperty   == Len(h) < Depth /\ MediaProperty /\ Log
 ANext == AGetMedia \/ AGetMediaDefault \/ AMediaProperty
+(* ---- instance P: access contexts (who looks at the media, and while what is being handled) -------------
+   A request passes a middleware (process_request probes the media and swallows what it raises), the
+   responder (plain accesses; accesses inside an except block handling an unrelated exception; accesses
+   inside the except block that handles the media error the previous access raised) and, when the
+   responder's last access raised, an error handler that looks at the media again before the error is
+   rendered.  The order of sites is the order of a request's life. *)
+PCTypes    == {"json", "vnd_json", "subjson", "custom", "form", "text"}
+PBodyKinds == {"empty", "truncated", "badenc", "blank", "hookfail", "valid"}
+Rank(cx) == CASE cx = "mw" -> 0 [] cx = "errh" -> 2 [] OTHER -> 1
+SiteOK(cx) ==
+    LET n == Len(h) IN
+    /\ (n > 0 => Rank(h[n].cx) <= Rank(cx))
+    /\ (cx = "errh" => n > 0 /\ (h[n].cx = "errh" \/ (Rank(h[n].cx) = 1 /\ h[n].out = "err")))
+    /\ (n > 0 /\ h[n].cx = "errh" => cx = "errh")
+    /\ (cx = "exceptself" => n > 0 /\ Rank(h[n].cx) = 1 /\ h[n].out = "err")
+PAt(cx) == /\ cx \in Contexts /\ SiteOK(cx)
+           /\ (Access("get", FALSE, cx) \/ Access("get", TRUE, cx) \/ Access("media", FALSE, cx)) /\ Log
+PMiddleware   == Len(h) < Depth /\ PAt("mw")
+PResponder    == Len(h) < Depth /\ PAt("plain")
+PInExcept     == Len(h) < Depth /\ PAt("except")
+PInExceptSelf == Len(h) < Depth /\ PAt("exceptself")
+PErrorHandler == Len(h) < Depth /\ PAt("errh")
+PNext == PMiddleware \/ PResponder \/ PInExcept \/ PInExceptSelf \/ PErrorHandler
+(* a behaviour is complete when it has Depth accesses or cannot be continued within the request's life *)
 MCInit == Init /\ h = <<>>
 MCNeverReparsed == [][cache.k # "unset" => (cache' = cache /\ parses' = parses /\ consumed' = consumed /\ ~last'.touched)]_<<vars, h>>
+MCErrorIsStable == [][(firstp # NoProj) => firstp' = firstp]_<<vars, h>>
 Emit == (Len(h) = Depth) => PrintT(ToJson([stack |-> stack, framing |-> framing, ctype |-> ctype, handler |-> Handler, body |-> body, ev |-> h]))
 
 (* ---- document shapes (JSON): [k: "s" scalar of category c | "l" list | "o" object, c, items] ---- *)
